@@ -5,9 +5,204 @@ memory within a fixed multiple of the input size.
 The namespace `CtyModel.C17` audited by `./check C17` holds BOTH halves:
 * the JSON half (`json_…`, `typejson_…`): `Props/C17Json.lean`;
 * the MessagePack half (`msgpack_…`): this file.
+
+MessagePack half.  Every statement is about `D17.Unmarshal` / `D17.unmarshal` (CtyModel/d17Msgpack.lean:
+the exported `msgpack.Unmarshal` and the recursive function behind it, following /repo bb6ac26) and
+`Msgpack.impliedType` — the transliterations of cty/msgpack/unmarshal.go, unknown.go, dynamic.go,
+type_implied.go that the correspondence harness diffs against /repo on every run (ops
+`d17.unmarshal`, `mp.implied`) — and quantifies over EVERY item tree (`Msgpack.Item`: what the
+wire format delimits; bytes that are no item tree are exercised on the real code by the harness),
+EVERY requested type, EVERY equality oracle of the refinement builder and every `Ext`.
+
+`Ext` holds the external functions (nothing is an axiom): `norm` = `cty.NormalizeString`, `setOf` =
+`cty.SetVal` on already decoded members (hashing and de-duplication are property C03's).  The
+no-panic clause assumes of them only `D17.SetNP E`: `SetVal` does not panic on what the decoder
+hands it (the decoder asks `CanSetVal` first).  The extension branch needs not even that.
+
+Lemmas: `Lemmas/d17MsgpackNP.lean`, `Lemmas/d17MsgpackAlloc.lean`, `Lemmas/d17AllocSites.lean`,
+`Lemmas/d17JsonDepth.lean`.
 -/
 import CtyModel.Props.C17Json
+import CtyModel.Lemmas.d17MsgpackNP
+import CtyModel.Lemmas.d17MsgpackAlloc
+import CtyModel.Lemmas.d17AllocSites
+import CtyModel.Generated.Limits
 
 namespace CtyModel.C17
+open Msgpack D17 Refine
+
+/-- an `Ext` for concrete instances: strings already normalised, `SetVal` keeps the members as they
+come, one bucket each (fine for the sets of the examples, whose members are distinct) -/
+def mext0 : Ext :=
+  { norm := id, safePrefix := fun _ => none, setOf := fun _ ps => .ok (.sset (ps.map fun _ => 7) ps) }
+
+/-- the one assumption of the no-panic clause is satisfiable -/
+theorem mext0_setnp : SetNP mext0 := by intro e ps w h; simp [mext0] at h
+
+/-! ## Clause 1 — never a panic -/
+
+/-- `msgpack.Unmarshal` never panics: every item tree, every requested type, every equality oracle
+of the refinement builder (so also the one the code uses, `rawNumberEqual` on decimal text), every
+`Ext` whose `SetVal` does not panic.  (Before /repo 4e89662, e63bbcc, 28caeac this was false: a
+NaN, members of different types under a dynamic element type and contradictory refinements reached
+panicking constructors; they are the errors of `msgpack_repaired_panics_are_errors`.) -/
+theorem msgpack_never_panics [EqOracle] (E : Ext) (hs : SetNP E) (it : Item) (ty : Ty) (w : String) :
+    D17.Unmarshal E it ty ≠ .panic w :=
+  (Unmarshal_np E hs it ty).not_panic w
+
+/-- the same for the recursive `unmarshal` (what `unmarshalDynamic`, the per-kind functions and the
+refinement loop call), whatever the requested type — also one that carries optional-attribute
+annotations or is not well-formed -/
+theorem msgpack_unmarshal_never_panics [EqOracle] (E : Ext) (hs : SetNP E) (it : Item) (ty : Ty) (w : String) :
+    D17.unmarshal E it ty ≠ .panic w :=
+  (unmarshal_np E hs it ty).not_panic w
+
+/-- `msgpack.ImpliedType` never panics, on every item tree, with no assumption at all -/
+theorem msgpack_implied_never_panics (E : Ext) (it : Item) (w : String) : impliedType E it ≠ .panic w :=
+  (impliedType_np E it).not_panic w
+
+/-- An unknown-value extension item never makes the decoder panic, with NO assumption on `Ext`:
+the deferred `recover()` of `unmarshalUnknownValue` (/repo 28caeac) turns every panic of the
+refinement builder — and of anything else below it — into an error. -/
+theorem msgpack_unknown_never_panics [EqOracle] (E : Ext) (code : Int) (len : Nat) (hdr : ExtHdr) (stream : List Item)
+    (ty : Ty) (w : String) : D17.unmarshal E (.ext code len hdr stream) ty ≠ .panic w := by
+  have : NP (D17.unmarshal E (.ext code len hdr stream) ty) := by simp only [D17.unmarshal]; exact recoverErr_np _
+  exact this.not_panic w
+
+/-- THE STRONGER STATEMENT one might want: the replay of the refinement map (`rfnLoop`, the `for`
+loop of `unmarshalUnknownValue`) never reaches a panic of the refinement builder in the first
+place.  FALSE of the code: the builder panics on contradictory refinements and the decoder relies
+on `recover()`.  Kept visible. -/
+def msgpack_refinement_replay_never_panics : Prop :=
+  ∀ (O : EqOracle) (E : Ext) (ty : Ty) (n : Nat) (stream : List Item) (b : Builder) (st : LenSt) (w : String),
+    @D17.rfnLoop O E ty n stream b st ≠ .panic w
+
+/-- COUNTEREXAMPLE: the refinement map `{1: false, 1: true}` (not null, then null) for an unknown
+string — the builder's `Null()` panics ("refining null value as non-null" the other way round);
+`msgpack_unknown_never_panics` is what holds instead, and the witness is an error of
+`msgpack_repaired_panics_are_errors`. -/
+theorem msgpack_refinement_replay_never_panics_counterexample : ¬ msgpack_refinement_replay_never_panics := by
+  intro h
+  have hb : (match @D17.rfnLoop textOracle mext0 .string 2 [.int 1, .bool false, .int 1, .bool true]
+      ⟨Value.unknown .string, [], .str .u ""⟩ lenSt0 with | .panic _ => true | _ => false) = true := by decide +kernel
+  split at hb
+  · rename_i w hw; exact h textOracle mext0 _ _ _ _ _ w hw
+  · cases hb
+
+/-- REGRESSION (repaired by /repo 4e89662, 28caeac, e63bbcc, d1824c6, a52fc1e, bb6ac26): the recorded
+witnesses are errors.  NaN for a number; `{1:false,1:true}` for an unknown string; crossed length
+bounds; `[[type "string","a"],[type "number",1]]` for `list(dynamic)`; `0x90` for `tuple(string)`; an
+object with a repeated attribute; a not-null list refinement whose length bounds meet at 2 and at
+2^40 (the decoder would have built a list of that many unknown elements) — while the same
+refinement of a SET stays an unknown set. -/
+theorem msgpack_repaired_panics_are_errors :
+    (match @D17.Unmarshal textOracle mext0 .fnan .number with | .err _ => true | _ => false) = true ∧
+    (match @D17.Unmarshal textOracle mext0 (.ext 12 5 (.map 2) [.int 1, .bool false, .int 1, .bool true]) .string with
+      | .err _ => true | _ => false) = true ∧
+    (match @D17.Unmarshal textOracle mext0 (.ext 12 5 (.map 2) [.int 5, .int 3, .int 6, .int 1]) (.list .string) with
+      | .err _ => true | _ => false) = true ∧
+    (match @D17.Unmarshal textOracle mext0 (.arr [.arr [.binj (.str "string"), .str "a"], .arr [.binj (.str "number"), .int 1]])
+        (.list .dyn) with | .err _ => true | _ => false) = true ∧
+    (match @D17.Unmarshal textOracle mext0 (.arr []) (.tuple [.string]) with | .err _ => true | _ => false) = true ∧
+    (match @D17.Unmarshal textOracle mext0 (.map [.str "a", .str "a"] [.str "x", .str "y"])
+        (.object ["a", "b"] [.string, .string] [false, false]) with | .err _ => true | _ => false) = true ∧
+    (match @D17.Unmarshal textOracle mext0 (.ext 12 7 (.map 3) [.int 1, .bool false, .int 5, .int 2, .int 6, .int 2])
+        (.list .string) with | .err _ => true | _ => false) = true ∧
+    (match @D17.Unmarshal textOracle mext0 (.ext 12 7 (.map 3) [.int 5, .int 1099511627776, .int 6, .int 1099511627776, .int 1, .bool false])
+        (.list .string) with | .err _ => true | _ => false) = true ∧
+    (match @D17.Unmarshal textOracle mext0 (.ext 12 7 (.map 3) [.int 1, .bool false, .int 5, .int 2, .int 6, .int 2])
+        (.set .string) with | .ok v => !v.isKnown | _ => false) = true := by decide +kernel
+
+/-- the decoder is exercised by the examples on every kind of node (the conclusion of
+`msgpack_never_panics` is reached through `ok` results too): an object holding a map, a tuple with
+a dynamic wrapper, a set, and a refined unknown number -/
+example :
+    (match @D17.Unmarshal textOracle mext0
+        (.map [.str "m", .str "s", .str "t", .str "u"]
+          [.map [.str "b", .str "a"] [.int 1, .str "2.5"],
+           .arr [.str "x", .str "y"],
+           .arr [.bool true, .arr [.binj (.arr [.str "list", .str "string"]), .arr [.str "p"]]],
+           .ext 12 9 (.map 2) [.int 1, .bool false, .int 3, .arr [.int 0, .bool true]]])
+        (.object ["m", "s", "t", "u"] [.map .number, .set .string, .tuple [.bool, .dyn], .number]
+          [false, false, true, false]) with
+      | .ok v => Ty.conformErrs (.object ["m", "s", "t", "u"] [.map .number, .set .string, .tuple [.bool, .dyn], .number]
+          [false, false, false, false]) v.ty == 0 && !v.ty.hasOpt
+      | _ => false) = true := by decide +kernel
+
+/-! ## The limits, tied to the source -/
+
+/-- The two limits the MessagePack decoder applies to what the input merely announces are the
+ones in the source (`Generated/Limits.lean` is re-extracted from cty/msgpack/unknown.go and
+unmarshal.go on every check: a change of either constant breaks this theorem), and so is the
+nesting limit of `json.ImpliedType`. -/
+theorem msgpack_limits_are_source :
+    Msgpack.maxExtLen = Generated.msgpackMaxExtLen ∧ D17.allocHintMax = Generated.msgpackAllocHintMax := by decide
+
+/-- An extension body longer than the limit of the source (1024 bytes) is refused — whatever its
+type code, its content, the requested type — before `make([]byte, extLen)` is reached
+(`msgpack_alloc_…` below count that buffer). -/
+theorem msgpack_oversize_extension_refused [EqOracle] (E : Ext) (code : Int) (len : Nat) (hdr : ExtHdr)
+    (stream : List Item) (ty : Ty) (h : len > Generated.msgpackMaxExtLen) :
+    ∃ c, D17.unmarshal E (.ext code len hdr stream) ty = .err c := by
+  have h1 : ¬ len ≤ 1 := by simp [Generated.msgpackMaxExtLen] at h; omega
+  have h2 : len > maxExtLen := h
+  simp only [D17.unmarshal, h1, if_false, h2, if_true]
+  split <;> exact ⟨_, rfl⟩
+
+/-- … and the limit is sharp: a body of exactly 1024 bytes is still read -/
+example : (match @D17.unmarshal textOracle mext0 (.ext 12 1024 (.map 1) [.int 1, .bool false]) .string with
+    | .ok v => !v.isKnown | _ => false) = true := by decide +kernel
+
+/-! ## Clause 3 — allocation (cty/msgpack after /repo 9555bea, 12d5e4f) -/
+
+/-- On a COMPLETE item tree the `make(…)` calls of the decoder request fewer element slots than
+twice the size of the document in bytes, for every requested type (`allocCost`: an upper bound of
+what the walk can reach; `wireSize`: the bytes from below, an extension body counted once more for
+every level of extension nesting, as the decoder copies it: at most `(1 + extDepth it)` × bytes).
+`allocHint` plays no part here — any hint that does not exceed the announced length will do — since
+an item tree has the members its headers announce. -/
+theorem msgpack_alloc_complete (E : Ext) (it : Item) (ty : Ty) :
+    allocCost allocHint E it ty + 1 ≤ 2 * wireSize it :=
+  allocCost_le allocHint allocHint_le E it ty
+
+/-- THE STATEMENT for documents that are cut off after a length header (the bytes end, or stop
+being MessagePack, where the announced members should follow), for a given way `hint` of turning an
+announced length into a pre-allocation and a constant `K`: at most `K` slots per byte. -/
+def msgpack_alloc_within (hint : Nat → Nat) (K : Nat) : Prop :=
+  ∀ (E : Ext) (c : Cut) (ty : Ty), allocCostCut hint E c ty ≤ K * cutSize c
+
+/-- It holds of the code as it is, with the clamp of the source as the constant: `allocHint`
+pre-allocates at most `msgpackAllocHintMax` = 1024 slots per header, an extension body is at most
+`msgpackMaxExtLen` = 1024 bytes, every header costs a byte. -/
+theorem msgpack_alloc_cut : msgpack_alloc_within allocHint Generated.msgpackAllocHintMax :=
+  fun E c ty => allocCostCut_le allocHint allocHint_le E 1024 (by decide) allocHint_le_max (by decide) c ty
+
+/-- REGRESSION (what /repo 9555bea, 12d5e4f repaired): with the announced length itself as the
+capacity (`hint = id`) the statement fails for the constant 1024 — and for every constant: the
+five bytes `dd ff ff ff ff` announce 2^32-1 members. -/
+theorem msgpack_alloc_unclamped_counterexample : ¬ msgpack_alloc_within id Generated.msgpackAllocHintMax := by
+  intro h
+  have := h mext0 (.arr 4294967295 [] .eof) (.list .string)
+  revert this
+  decide +kernel
+
+/-- the bound of `msgpack_alloc_cut` is attained: three nested headers (three bytes of array
+headers in the model) that each announce more than 1024 members cost 3 · 1024 slots -/
+example : allocCostCut allocHint mext0 (.arr 70000 [] (.arr 70000 [] (.arr 70000 [] .eof))) (.list (.list (.list .string)))
+      = 3072 ∧ cutSize (.arr 70000 [] (.arr 70000 [] (.arr 70000 [] .eof))) = 3 := by decide +kernel
+
+/-- The allocation sites of the model are the allocation sites of the source: the table of EVERY
+`make(` call of cty/msgpack/*.go and cty/json/*.go (`Generated/DecoderAllocs.lean`, re-extracted on
+every check, fails closed on a size expression of unknown shape) has no site whose length or
+capacity is a raw decoded header; the eight clamped sites are the five collection decoders of
+unmarshal.go, `impliedTupleType`, and the two reads of an extension body under their guards. -/
+theorem msgpack_alloc_sites_are_source :
+    Generated.decoderAllocSites.all (fun s => s.len != .rawHeader && s.cap != .rawHeader) = true ∧
+    D17Sites.clampedIn "cty/msgpack/unmarshal.go" = 5 ∧
+    D17Sites.clampedIn "cty/msgpack/type_implied.go" = 1 ∧
+    D17Sites.clampedIn "cty/msgpack/unknown.go" = 2 ∧
+    Generated.decoderAllocSites.length = 14 :=
+  ⟨D17Sites.no_raw_header_capacity, D17Sites.decoder_sites_listed.1, D17Sites.decoder_sites_listed.2.1,
+   D17Sites.decoder_sites_listed.2.2.1, D17Sites.decoder_sites_listed.2.2.2.2⟩
 
 end CtyModel.C17
